@@ -521,6 +521,9 @@ func (g *Gen) Next(malformed bool) Op {
 		default:
 			op.N = tipH + 1
 		}
+		if op.N < 0 {
+			op.N = 0
+		}
 		if op.N > room || op.N > tipH {
 			if malformed {
 				op.WF = false
@@ -564,7 +567,11 @@ func (g *Gen) Next(malformed bool) Op {
 	case x < 78:
 		return Op{Kind: "qheightof", X: g.someHash(), WF: true}
 	case x < 82:
-		return Op{Kind: "qbanc", N: []int64{0, 1, 2, tipH, tipH + 1, 7}[r.Intn(6)], X: g.someHash(), WF: true}
+		n := []int64{0, 1, 2, tipH, tipH + 1, 7}[r.Intn(6)]
+		if n < 0 {
+			n = 0
+		}
+		return Op{Kind: "qbanc", N: n, X: g.someHash(), WF: true}
 	case x < 85:
 		return Op{Kind: "qlocator", X: g.someHash(), WF: true}
 	case x < 87:
